@@ -37,6 +37,7 @@ THEOREMS = [
         # the source as translated (Generated/PyRain.lean, Generated/RainflowWrap.lean) is the model
         "generated_rainflow1_eq_model generated_rainflow2_eq_model generated_entry_eq_model "
         "generated_wrapper_eq_model generated_rainflow2_eq_model_field "
+        "generated_c_rainflow1_eq_model generated_c_rainflow2_eq_model generated_c_eq_generated_py "
         # entry points
         "entry_refuses_iff entry_other_errors entry_impls_agree_partial entry_impls_agree_needs_safe "
         "entry_result_shape wrapper_is_relabel call_history_irrelevant "
@@ -52,8 +53,11 @@ TRUSTED = [
     "translator harness/translate/c05_pyrain.py (Python ast; grammar and embedding semantics in its docstring and in "
     "Model/RainflowImp.lean; anything outside the grammar breaks the tie); its output is compared bit for bit with "
     "py_rain on every run",
-    "gcc build of c_rain.c from the working tree (both settings of USE_FASTER_RAINFLOW_ROUTINE); the C loops are tied "
-    "by correspondence only (no C translator)",
+    "translator harness/translate/c05_crain.py (a C-subset parser for rainflow1/rainflow2 of c_rain.c and the numpy "
+    "C-API idioms listed in its docstring: calloc, PyArray_SimpleNew, PyArray_DATA cursors, the slice-and-return block); "
+    "its output for both macro settings is compared bit for bit with the gcc build on every run",
+    "gcc build of c_rain.c from the working tree (both settings of USE_FASTER_RAINFLOW_ROUTINE); the C entry function "
+    "`rainflow` (argument parsing, PyArray_FROM_OTF) is tied by correspondence only",
     "numpy's conversion of the caller's object to an array (np.atleast_1d / PyArray_FROM_OTF) and pandas' DataFrame "
     "constructor: observed by the container/dtype streams, not modelled",
     "Lean's Float is the machine's IEEE double (used only to run the generated programs, never in a proof)",
@@ -90,24 +94,28 @@ MANIFEST = {
     "is at most the overall range, and exactly what a plateau does (a repeated first point only adds a zero half "
     "cycle; an interior plateau is counted as a zero full cycle that ERASES the point from the stack). (2) About the "
     "source itself: harness/translate/c05_pyrain.py re-emits py_rain.py (`rainflow`, `_rainflow1`, `_rainflow2`) and "
-    "the import block + wrapper of cyclecount.py as a shallow embedding (arrays, indices j/n, in-place writes, "
-    "break; failure on any out-of-range index, unwritten cell or exhausted fuel) and Lean proves for all inputs that "
-    "these programs never fail and compute the model's table (generated_*_eq_model), so every theorem holds of what "
+    "the import block + wrapper of cyclecount.py, harness/translate/c05_crain.py (a C-subset parser) re-emits "
+    "`rainflow1`/`rainflow2` of c_rain.c for both macro settings, as shallow embeddings (arrays, indices j/n, pointer "
+    "bumps `*rf++`, in-place writes, break, the final slice; failure on any out-of-range index, unwritten cell or "
+    "exhausted fuel) and Lean proves for all inputs that the Python programs and the C programs of the shipped "
+    "configuration (USE_FASTER_RAINFLOW_ROUTINE defined) never fail and compute the model's table "
+    "(generated_*_eq_model, generated_c_*_eq_model, generated_c_eq_generated_py), so every theorem holds of what "
     "the source says now. (3) Entry points: ValueError iff not a vector of >= 2 points, result shape, the wrapper is "
     "a relabelling, results do not depend on the call history. Tie: the translator (regenerated and re-proved every "
     "run) + exact correspondence of model, generated programs (bit for bit at IEEE doubles, including non-dyadic "
     "values) and entry model with py_rain, gcc-built c_rain (both macro settings) and the wrapper over containers, "
     "dtypes, shapes and call sequences.",
     "level_note": "Trusted: Lean kernel; propext, Classical.choice, Quot.sound; the Python harness and translator; gcc; "
-    "numpy's array conversion and pandas' DataFrame constructor (observed, not modelled). The C loops are tied by "
-    "correspondence only. Theorems are over exact arithmetic: for doubles whose differences round, C and Python "
+    "numpy's array conversion and pandas' DataFrame constructor (observed, not modelled). The C entry function "
+    "(PyArg_ParseTupleAndKeywords, PyArray_FROM_OTF, the ndim/L test) and the two-pass C variant (macro undefined: "
+    "translated and compared bit for bit, not proved) are tied by correspondence only. Theorems are over exact arithmetic: for doubles whose differences round, C and Python "
     "perform identical IEEE operations (checked bit for bit against the translated program) but agreement with the "
     "real-number ASTM procedure is not claimed. 'largest range is always counted' is proved for true reversal "
     "sequences only (`[0,1,2]` shows the hypothesis is necessary). The two implementations agree only for dtypes that "
     "cast safely to float64: for np.longdouble (also complex, object) c_rain raises TypeError where py_rain counts "
     "(entry_impls_agree_partial; reported as a failing input). numba variant = same source text, not executed.",
-    "technique": "Lean 4 proof (induction over the stack machine, refinement to an ASTM spec, refinement of a "
-    "source-to-Lean shallow embedding of py_rain.py/cyclecount.py to the model) + exact differential correspondence "
+    "technique": "Lean 4 proof (induction over the stack machine, refinement to an ASTM spec, refinement of "
+    "source-to-Lean shallow embeddings of py_rain.py, cyclecount.py and c_rain.c to the model) + exact differential correspondence "
     "with py_rain, gcc-built c_rain and the wrapper",
 }
 PARTIAL = (
@@ -116,7 +124,11 @@ PARTIAL = (
     "hypothesis is necessary: for np.longdouble / complex / object arrays c_rain raises TypeError where py_rain "
     "returns a table. duplicate_insertion is false as first stated (a repeated interior point is erased, not just "
     "recorded as a zero-range entry): proved are duplicate_first, plateau_erases_point and the counterexample "
-    "duplicate_insertion_not_harmless. c_rain.c's loops are tied by correspondence, not by a translator."
+    "duplicate_insertion_not_harmless. c_rain.c: rainflow1/rainflow2 are translated for both macro settings; the "
+    "refinement proof is done for the shipped setting (USE_FASTER_RAINFLOW_ROUTINE defined: generated_c_rainflow1/2_eq_model, "
+    "which also pin `shippedFast = true`), not for the two-pass variant without the macro (it needs one more invariant: "
+    "the rows written so far are a prefix of the final table whose length pass one has counted); the C entry function "
+    "`rainflow` (O|p parsing, PyArray_FROM_OTF) is modelled by hand (cEntry) and tied by correspondence."
 )
 
 
@@ -125,7 +137,10 @@ def translate(ctx):
 
     c05_pyrain.generate(ctx.repo, ctx.lean)
     c05_pyrain.generate_wrapper(ctx.repo, ctx.lean)
-    return ["PyRain.lean", "RainflowWrap.lean"]
+    from translate import c05_crain
+
+    c05_crain.generate(ctx.repo, ctx.lean)
+    return ["PyRain.lean", "RainflowWrap.lean", "CRain.lean"]
 
 
 def _build_c(repo):
@@ -350,7 +365,8 @@ def correspondence(ctx):
         "branch:full-cycle(step4)", "branch:half-nonadjacent", "branch:value-error",
         "float:dyadic", "float:non-dyadic", "float:exact-tie",
         "reply:generated:tables", "reply:generated:table", "reply:generated:frames", "reply:generated:frame",
-        "reply:generated:value-error", "reply:entry:tables", "reply:entry:table", "reply:entry:value-error",
+        "reply:generated:value-error", "stream:generated-c-2f", "stream:generated-c-1f", "stream:generated-c-2s",
+        "stream:generated-c-1s", "reply:entry:tables", "reply:entry:table", "reply:entry:value-error",
         "reply:entry:type-error", "reply:wrapper:frames", "reply:wrapper:frame", "reply:wrapper:tables",
         "reply:wrapper:table", "reply:wrapper:value-error", "reply:call:value-error", "reply:call:tables",
         "reply:call:frames", "container:series", "container:memoryview", "container:0", "container:1xn",
@@ -550,6 +566,11 @@ def _streams_float(ctx, impls, cases):
         for g in (1, 0):
             greq.append("ge %d %s" % (g, nd))
             gwant.append(("generated-py-entry", tag, _canon_any(lambda: py_rain.rainflow(x.copy(), bool(g)))))
+        if len(x) >= 2:
+            for which, name, g in (("2f", "cfast", True), ("1f", "cfast", False), ("2s", "cslow", True), ("1s", "cslow", False)):
+                if name in impls:
+                    greq.append("gc %s %s" % (which, nd))
+                    gwant.append(("generated-c-" + which, tag, _canon_any(lambda: impls[name](x.copy(), g))))
         if full:
             for g in (1, 0):
                 for up in (1, 0):
@@ -657,6 +678,8 @@ def _streams_float(ctx, impls, cases):
     for (stream, tag, want), got in list(zip(mwant, mrep)) + list(zip(gwant, grep)):
         kind = got.split(" ")[0]
         ctx.count("reply:" + stream.split("-")[0] + ":" + kind)
+        if stream.startswith("generated-c-"):
+            ctx.count("stream:" + stream)
         if got != want:
             ctx.disagree(stream, tag, want[:300], got[:300])
     ctx.extra["float_stream_requests"] = {"model_driver": len(mreq), "generated_driver": len(greq)}
